@@ -304,8 +304,10 @@ func checkRecoveryProcedure(c *Ctx, p *Prog, rule, dir string) {
 			want = "push (shift target, attribute), then enter the skip loop with recovered = current token acceptable"
 			ok = strings.HasPrefix(out.Term, "cut:") && evs == "push(S,*errors.Error(&new:complit))" && out.NextPhi["recovered"] == fmt.Sprint(wd.tokAct != "nil")
 		case "reduce":
-			want = "(the template asserts a shift: panics) — 'never panics' is not decided"
-			ok = out.Term == "panic"
+			// no state on the stack can shift the error symbol (nothing was popped), and the row of the
+			// state on top has a reduction in the error column (error is in the look-ahead of an empty alternative)
+			want = "return (false, attribute) without touching the stack: no state can shift the error symbol, Parse returns the error (never panics)"
+			ok = out.Term == "return" && evs == "" && len(out.Results) == 2 && out.Results[0] == "false"
 		}
 		c.Ob(rule, dir+" Error: "+wd.name, ok, fmt.Sprintf("term=%s results=%v next=%v events=[%s] %s; required: %s", out.Term, out.Results, out.NextPhi, evs, out.Undecided, want), p.FnPos(errFn))
 	}
